@@ -284,7 +284,48 @@ func genFamily(r *Rng, fam string) []byte {
 func genLong(r *Rng) []byte {
 	n := pick(r, []int{40, 70, 130, 140, 260, 520, 1100})
 	var b strings.Builder
-	switch r.Intn(9) {
+	switch r.Intn(14) {
+	case 9: // deeply nested block quotes
+		d := pick(r, []int{17, 33, 65, 130, 260})
+		fmt.Fprintf(&b, "%s%s\n", strings.Repeat("> ", d), word(r))
+		if r.Chance(1, 2) {
+			fmt.Fprintf(&b, "%s# %s\n", strings.Repeat(">", d/2), word(r))
+		}
+	case 10: // deeply nested inline constructs
+		d := pick(r, []int{9, 17, 33, 65, 129})
+		switch r.Intn(4) {
+		case 0:
+			fmt.Fprintf(&b, "%s%s%s\n", strings.Repeat("*a ", d), word(r), strings.Repeat(" a*", d))
+		case 1:
+			fmt.Fprintf(&b, "%s%s%s\n", strings.Repeat("[", d), word(r), strings.Repeat("](/u)", d))
+		case 2:
+			fmt.Fprintf(&b, "%s%s%s\n", strings.Repeat("![", d), word(r), strings.Repeat("](/i.png)", d))
+		default:
+			fmt.Fprintf(&b, "%s %s %s\n", strings.Repeat("`", d), word(r), strings.Repeat("`", d))
+		}
+	case 11: // many cells in one table row, many columns
+		c := pick(r, []int{17, 33, 65, 129})
+		fmt.Fprintf(&b, "|%s\n|%s\n|%s\n", strings.Repeat(" h |", c), strings.Repeat(pick(r, []string{":-|", "-:|", ":-:|"}), c), strings.Repeat(" `x\\|y` |", c))
+	case 12: // many items of every extension in one block group: tasks, definitions, footnote references
+		for i := 0; i < n && i < 300; i++ {
+			switch i % 3 {
+			case 0:
+				fmt.Fprintf(&b, "- [%s] %s[^f%d]\n", pick(r, []string{" ", "x"}), word(r), i%7)
+			case 1:
+				fmt.Fprintf(&b, "- ~~%s~~ \"%s\" www.%s.com\n", word(r), word(r), pick(r, words[:8]))
+			default:
+				fmt.Fprintf(&b, "- **%s** `%s` <http://%s.example/>\n", word(r), word(r), pick(r, words[:8]))
+			}
+		}
+		b.WriteString("\n")
+		for i := 0; i < 7; i++ {
+			fmt.Fprintf(&b, "[^f%d]: note %d\n", i, i)
+		}
+	case 13: // ordered list with large numbers and a long run of items
+		start := pick(r, []int{0, 9, 99, 999, 99999999, 123456789})
+		for i := 0; i < n && i < 200; i++ {
+			fmt.Fprintf(&b, "%d. %s\n", start+i, word(r))
+		}
 	case 0: // list item with a blank second line and many continuation lines
 		b.WriteString("- a\n\n  b\n")
 		for i := 0; i < n; i++ {
@@ -579,11 +620,17 @@ func genLarge(r *Rng, c *Corpus, target int) []byte {
 
 // genAnyDoc: general-purpose mix.
 func genAnyDoc(r *Rng, c *Corpus) []byte {
-	if r.Split("long-line").Chance(1, 60) {
-		return genLongLine(r.Split("long-line-doc"))
+	// (sub-streams keep older seeds' other choices; r itself must advance on every path,
+	// otherwise a caller drawing several documents from one generator gets the same one again)
+	gate := NewRng(r.Next())
+	if gate.Split("long-line").Chance(1, 60) {
+		return genLongLine(gate.Split("long-line-doc"))
 	}
-	if r.Split("struct").Chance(1, 5) {
-		return byteLevel(r, genStruct(r.Split("struct-doc")))
+	if gate.Split("size-class").Chance(1, 70) {
+		return genLong(gate.Split("size-class-doc"))
+	}
+	if gate.Split("struct").Chance(1, 5) {
+		return byteLevel(gate, genStruct(gate.Split("struct-doc")))
 	}
 	switch r.Intn(10) {
 	case 0, 1, 2, 3:
